@@ -370,8 +370,37 @@ def enum_removed_cases():
     return cases
 
 
+def enum_two_instance_cases():
+    """Enumerated (every run): two instances. A dispatch of instance B ends with B's watch set empty (its only watch unregisters itself
+    in its handler / is dropped by IN_IGNORED / a one-shot watch fires) or non-empty; B stays registered and is unregistered LATER — from
+    a handler of instance A at the first of several records of one read (the rest of A's batch must still be delivered, in order), or at
+    top level — and afterwards A receives more events. Nothing of B's finished dispatch may linger."""
+    cases = []
+    endings = {
+        "self-unwatch": (["react 0 0 unwatch 0"], "event 1 d 5:2:0:0:z"),
+        "ignored": ([], f"event 1 d 5:2:0:0:z 5:{IN_IGNORED:x}:0:0:z"),
+        "unwatch-all": (["watch 3 1 fff 8", "react 0 0 unwatch 3 ; unwatch 0"], "event 1 d 5:2:0:0:z 8:2:0:0:z"),
+        "nonempty": (["watch 3 1 fff 8"], "event 1 d 5:2:0:0:z"),
+        "no-dispatch": ([], "event 1 a"),
+    }
+    for en, (pre, bev) in endings.items():
+        for where in ("handler-first", "handler-middle", "top"):
+            for fill in ("zero", "junk"):
+                ops = [f"inst 0 {fill} ok", f"inst 1 {fill} ok", "watch 0 1 fff 5", "watch 1 0 fff 6", "watch 2 0 fff 7"] + pre + [bev]
+                if where == "handler-first":
+                    ops += ["react 1 0 uninst 1", "event 0 d 6:2:0:0:z 7:2:0:0:z 6:4:0:0:z"]
+                elif where == "handler-middle":
+                    ops += ["react 2 0 uninst 1", "event 0 d 6:2:0:0:z 7:2:0:0:z 6:4:0:0:z 7:4:0:0:z"]
+                else:
+                    ops += ["uninst 1", "event 0 d 6:2:0:0:z 7:2:0:0:z"]
+                ops += ["event 0 d 7:2:0:0:z 6:2:0:0:z"]
+                cases.append((f"twoinst-{en}-{where}-{fill}", ops))
+    return cases
+
+
 def gen_cases(tier, seed):
     yield from enum_removed_cases()
+    yield from enum_two_instance_cases()
     rng = random.Random(seed * 130003 + 20)
     for i in range(400 if tier == "quick" else 6000):
         if i % 20 == 19:
@@ -457,7 +486,10 @@ def run(tier, seed, proof):
                 "1-6 initial watches with scenario-chosen descriptors (collisions, -1, one-shot), 1-4 reads of 1-12 records (len 0/16/32/48/64/256, "
                 "occasionally 4-20 or 1-4 KiB; names filled with fake headers of registered descriptors; IN_IGNORED records; unknown descriptors; "
                 "EINTR/EAGAIN), handlers scripted per (watch, n-th call) to unregister themselves / other watches / the instance (with and without "
-                "re-registering the same structure), register new or dropped watches, release dropped watches, register instances. One case in 20 "
+                "re-registering the same structure), register new or dropped watches, release dropped watches, register instances. Plus two ENUMERATED families "
+                "(every run): 'removed' (the kernel already dropped a watch that a handler then unregisters/frees/re-registers) and 'twoinst' (30 cases: an "
+                "instance whose last dispatch ended with an empty / non-empty watch set is unregistered later from a handler of ANOTHER instance in the middle "
+                "of that instance's batch, or at top level; the rest of the batch and later reads must still be delivered). One case in 20 "
                 "runs against the real kernel (private directory tree, events made by creating/deleting files and removing directories). Every structure is "
                 "malloc'ed on its own and freed as early as the API allows (ASan). Every call, return value, handler invocation (watch, offset, record, "
                 "tree membership at entry) and end of walk is compared with the model; the oracle checks the log alone against the watch sets it "
